@@ -73,6 +73,14 @@ P = {
          "C10_pinned_refuted for the unserialised (pinned) behaviour. Real AsyncProtocol with run_in_executor replaced by harness-held futures: "
          "exhaustive enumeration of 1..4 frames x 1..3 consumers x completion position x 0..2 get() positions (645 schedules).",
          "partial: thread-pool timing is reduced to the position of the completion event; CPython's ready-queue order within one iteration is not an input."),
+ "C11": ("Theorem C11_cycles (closed): for every sequence of loss/reconnect cycles (any number of known devices, any number of failing open attempts) "
+         "the connection model announces connected=False once per known device, closes the transport once, runs one reconnect chain whose attempts "
+         "after a failure are at least the back-off interval apart, sends start-master once, announces connected=True to the same devices and ends "
+         "every cycle with 1 producer and consumers_count consumers (invariant over cycles); C11_pinned_refuted for the pinned task growth. "
+         "Real Connection (scripted opens) + AsyncProtocol + fake transports under the virtual-time loop: faults at the k-th read/write (EOF, "
+         "OSError, 10 s silence, failing write) x failed reconnects x repeated cycles with traffic, compared cycle by cycle.",
+         "partial: sockets/serial ports and wait_for cancellation inside a real transport are not modelled (faults injected at the StreamReader/"
+         "StreamWriter boundary); the model is per-cycle, the interleaving of a fault with in-flight frame handling is exercised, not modelled."),
  "C13": ("Theorems over every operation sequence of the event-manager model (subscribe, subscribe_once, unsubscribe, dispatch tasks, resumption "
          "of suspended callbacks, get with timeout, clock advance; induction with invariants, closed): C13_once (a subscribe_once callback is awaited "
          "at most once), C13_snapshot + C13_spawn_snapshot (every awaited callback belongs to the snapshot its dispatch took when it started, which "
